@@ -47,7 +47,14 @@ impl AnyWriter {
                     let xs: Vec<u64> = c["vs"].as_array().unwrap().iter().map(set_to_u64).collect();
                     // alternately through an exact-size iterator and through one whose size_hint has lower bound 0
                     let turn = EXTEND_TURN.with(|t| { t.set(t.get() + 1); t.get() });
-                    if turn % 2 == 0 { w.extend(xs.clone()); } else { w.extend(xs.clone().into_iter().filter(|_| true)); }
+                    if turn % 5 == 4 {
+                        // the source iterator fails AFTER it has yielded every item, and the caller handles the failure: the writer holds the items
+                        struct ThenPanic(std::vec::IntoIter<u64>);
+                        impl Iterator for ThenPanic { type Item = u64; fn next(&mut self) -> Option<u64> { match self.0.next() { Some(x) => Some(x), None => panic!("the source of extend() failed") } } }
+                        let src = ThenPanic(xs.clone().into_iter());
+                        let _ = std::panic::catch_unwind(std::panic::AssertUnwindSafe(|| w.extend(src)));
+                    }
+                    else if turn % 2 == 0 { w.extend(xs.clone()); } else { w.extend(xs.clone().into_iter().filter(|_| true)); }
                     if turn % 2 == 0 { v.extend(xs.into_iter().filter(|_| true)); } else { v.extend(xs); }
                     "ok"
                 },
@@ -101,7 +108,9 @@ pub fn replay_case(case: &Value, tally: &mut Tally) {
         if !tally.check(key, true, &|| ctx(i as i64, "result"), &s["res"], &res) { let _ = std::fs::remove_file(&path); return; }
         if !tally.check(hkey(&[key, 1]), true, &|| ctx(i as i64, "len() and is_open() after the call"), &s["obs"], &w.observe()) { let _ = std::fs::remove_file(&path); return; }
     }
-    drop(w);   // "drop" ending: dropping an open writer closes it; otherwise a no-op
+    // "drop" ending: dropping an open writer closes it (otherwise a no-op) - at the end of a scope, or while a panic unwinds through its owner
+    if hstr(&case.to_string()) % 2 == 0 { let _ = std::panic::catch_unwind(std::panic::AssertUnwindSafe(move || { let _owner = w; panic!("unwinding through the owner of a writer") })); }
+    else { drop(w); }
     let file = std::fs::read(&path).unwrap_or_default();
     let _ = std::fs::remove_file(&path);
     // the in-memory vector holds what the specification says was pushed (C05's business, kept as a tripwire) ...
